@@ -31,6 +31,7 @@ def configs(tier):
                 add(spec('global', rule, 2, 1, 2 if fast else 3, 'level', transform=(1 if rule in ('fejer2', 'gauss-chebyshev2', 'gauss-laguerre', 'gauss-jacobi') else 0), alpha=a, beta=b))
         add(spec('global', 'gauss-legendre', 2, 1, 3, 'qptotal')); add(spec('global', 'leja', 2, 1, 4, 'qpcurved', aniso=1)); add(spec('global', 'min-delta', 3, 1, 2, limits=1))
         for rule in SEQUENCE_RULES: add(spec('sequence', rule, 2, 1, 4)); add(spec('sequence', rule, 1, 1, 6, transform=1))
+        add(spec('sequence', 'rleja', 2, 1, 6, 'level', aniso=3)); add(spec('sequence', 'leja', 2, 1, 4, limits=1)); add(spec('global', 'clenshaw-curtis', 2, 1, 4, 'level', aniso=3)); add(spec('sequence', 'min-delta', 3, 1, 5, 'qptotal', aniso=3))   # directions of very different depth
         add(spec('sequence', 'min-lebesgue', 2, 1, 4, 'qptotal', transform=1)); add(spec('sequence', 'leja', 3, 1, 3))
         add(spec('fourier', 'fourier', 2, 1, 2)); add(spec('fourier', 'fourier', 1, 1, 3, transform=1))
         for h in (1, 2, 3, 4, 5):   # the weights of a grid reached through update / copy / round trip / assignment (rules that use alpha and beta)
@@ -52,6 +53,8 @@ def configs(tier):
             add(spec('global', 'gauss-legendre', 2, 1, 4 if 'tensor' not in t else 2, t, aniso=1)); add(spec('global', 'clenshaw-curtis', 2, 1, 3 if 'tensor' not in t else 2, t, aniso=1))
             add(spec('sequence', 'rleja', 2, 1, 4 if 'tensor' not in t else 2, t, aniso=1)); add(spec('global', 'chebyshev', 2, 1, 3 if 'tensor' not in t else 2, t))
         for rule in SEQUENCE_RULES:
+            for t in ('level', 'iptotal', 'qptotal'): add(spec('sequence', rule, 2, 1, 6, t, aniso=3)); add(spec('sequence', rule, 3, 1, 5, t, aniso=3, transform=1))
+            add(spec('sequence', rule, 2, 1, 4, limits=1)); add(spec('sequence', rule, 2, 1, 5, limits=2)); add(spec('sequence', rule, 2, 1, 5, 'level', aniso=1))
             for d, l in ((1, 6), (2, 4), (3, 3)):
                 for tr in (0, 1): add(spec('sequence', rule, d, 1, l, transform=tr))
             add(spec('sequence', rule, 2, 2, 3), 1)
